@@ -218,6 +218,22 @@ def is_speculative_jump_finding(src, b):
     return False
 
 
+def for_target_program(rnd):
+    """a pure program whose for-loop targets are also assigned once, at the top of the function, and read at its end:
+    with zero iterations the value from before the loop must survive the loop statement (the target is loop state)"""
+    src = gen_pure(rnd)
+    targets = sorted(set(re.findall(r'^\s*for (\w+) in ', src, re.M)))
+    if not targets:
+        return src
+    lines = src.rstrip('\n').split('\n')
+    pre = ['    %s = T(%d)' % (t, 900 + j) for j, t in enumerate(targets)]
+    tail = '    return T(998, %s)' % ', '.join(targets)
+    if re.match(r'^    return ', lines[-1]):
+        tail = '    return (%s, T(998, %s))' % (lines[-1].strip()[len('return '):], ', '.join(targets))
+        lines = lines[:-1]
+    return '\n'.join([lines[0]] + pre + lines[1:] + [tail]) + '\n'
+
+
 def closure_programs(rnd):
     """local functions closing over a variable that a later control statement assigns, reached directly, through a
     sibling closure, a two-hop chain or an alias; the variable is read after the statement only through them"""
@@ -333,7 +349,8 @@ def check(run):
     from malt.impl import api
     failures = []
     nprog = 150 if quick else 2000
-    srcs = closure_programs(rnd) + [gen_pure(rnd, mutation=(i % 3 == 0), global_=(i % 4 == 1)) for i in range(nprog)]
+    srcs = closure_programs(rnd) + [gen_pure(rnd, mutation=(i % 3 == 0), global_=(i % 4 == 1)) for i in range(nprog)] + \
+        [for_target_program(rnd) for i in range(nprog // 4)]
     cdir = os.path.join(vlib.ROOT, 'corpus', 'C02')
     csrcs = []
     if os.path.isdir(cdir):
